@@ -485,6 +485,6 @@ pub fn run(ctx: &mut Ctx) {
     ctx.assume("files are read back with the csv / arrow-ipc / parquet readers of the same crate versions the library writes with");
     ctx.assume("an Err on a writable path is accepted (the statement only constrains reported successes)");
     let t = ctx.tier;
-    ctx.section("roundtrip", "save, read back with a standard reader, compare header/schema, row count, index labels and every cell bitwise", t.pick(30_000, 1_000_000), 16, strategy, check);
+    ctx.section("roundtrip", "save, read back with a standard reader, compare header/schema, row count, index labels and every cell bitwise", t.pick(200_000, 6_000_000), 16, strategy, check);
     cleanup_scratch();
 }
